@@ -12,15 +12,17 @@ use std::collections::BTreeMap;
 pub struct C03;
 
 #[derive(Clone, Debug, Serialize, Deserialize, PartialEq)]
-pub enum Sel { S(usize), V(Vec<usize>), R(usize, usize, bool), All, M(Vec<bool>) }
+pub enum Sel { S(usize), V(Vec<usize>), R(usize, usize, bool), All, M(Vec<bool>), /// a negative scalar index -n (never addresses an element)
+  N(usize) }
 
 impl Sel {
-  pub fn form(&self) -> &'static str { match self { Sel::S(_) => "s", Sel::V(_) => "v", Sel::R(_, _, true) => "ri", Sel::R(_, _, false) => "rx", Sel::All => "a", Sel::M(_) => "m" } }
+  pub fn form(&self) -> &'static str { match self { Sel::S(_) | Sel::N(_) => "s", Sel::V(_) => "v", Sel::R(_, _, true) => "ri", Sel::R(_, _, false) => "rx", Sel::All => "a", Sel::M(_) => "m" } }
   /// source text; `ik` = literal kind used for numeric indices ("f64" plain, "u8", "u64")
   pub fn text(&self, ik: &str) -> String {
-    let n = |i: usize| match ik { "u8" => format!("{}u8", i), "u64" => format!("{}u64", i), _ => format!("{}", i) };
+    let n = |i: usize| match ik { "u8" => format!("{}u8", i), "u64" => format!("{}u64", i), "i64" => format!("{}<i64>", i), _ => format!("{}", i) };
     match self {
       Sel::S(i) => n(*i),
+      Sel::N(i) => if ik == "i64" { format!("-{}<i64>", i) } else { format!("-{}", i) },
       Sel::V(v) => format!("[{}]", v.iter().map(|i| n(*i)).collect::<Vec<_>>().join(" ")),
       Sel::R(a, b, incl) => format!("{}{}{}", n(*a), if *incl { "..=" } else { ".." }, n(*b)),
       Sel::All => ":".into(),
@@ -34,10 +36,11 @@ impl Sel {
       Sel::V(v) => if v.iter().all(|i| *i >= 1 && *i <= extent) { Some(v.clone()) } else { None },
       Sel::R(a, b, incl) => { let hi = if *incl { *b } else { b.checked_sub(1)? }; if *a >= 1 && hi <= extent && *a <= hi { Some((*a..=hi).collect()) } else { None } }
       Sel::All => Some((1..=extent).collect()),
+      Sel::N(_) => None,
       Sel::M(m) => if m.len() == extent { Some(m.iter().enumerate().filter(|(_, b)| **b).map(|(i, _)| i + 1).collect()) } else { None },
     }
   }
-  pub fn is_scalar(&self) -> bool { matches!(self, Sel::S(_)) }
+  pub fn is_scalar(&self) -> bool { matches!(self, Sel::S(_) | Sel::N(_)) }
 }
 
 pub const SHAPES: [(usize, usize); 11] = [(1, 1), (1, 3), (3, 1), (2, 2), (2, 3), (3, 2), (3, 3), (4, 4), (1, 9), (7, 1), (5, 6)];
@@ -68,7 +71,8 @@ pub fn gen_sel_distinct(form: &str, extent: usize, rng: &mut Rng) -> Sel {
 /// out-of-range variants of a selector: (label, selector)
 pub fn oor_variants(sel: &Sel, extent: usize) -> Vec<(&'static str, Sel)> {
   match sel {
-    Sel::S(_) => vec![("zero", Sel::S(0)), ("past", Sel::S(extent + 1))],
+    Sel::S(i) => vec![("zero", Sel::S(0)), ("past", Sel::S(extent + 1)), ("negative", Sel::N((*i).max(1))), ("negative-one", Sel::N(1))],
+    Sel::N(_) => vec![],
     Sel::V(v) => { let mut a = v.clone(); a[0] = 0; let mut b = v.clone(); let l = b.len() - 1; b[l] = extent + 1; let mut c = v.clone(); c[0] = extent + 1; vec![("first-zero", Sel::V(a)), ("last-past", Sel::V(b)), ("first-past", Sel::V(c))] }
     Sel::R(a, b, true) => vec![("end-past", Sel::R(*a, extent + 1, true)), ("start-zero", Sel::R(0, *b, true))],
     Sel::R(a, b, false) => vec![("end-past", Sel::R(*a, extent + 2, false)), ("start-zero", Sel::R(0, *b, false))],
@@ -163,7 +167,7 @@ impl Prop for C03 {
             let fname = forms.join(",");
             let base = format!("kind={};shape={}x{};form={}", k, r, c, fname);
             let mut rng = Rng::keyed(seed, &format!("{};d={}", base, d));
-            let ik = *rng.pick(&["f64", "f64", "u8", "u64"]);
+            let ik = *rng.pick(&["f64", "f64", "u8", "u64", "i64"]);
             let x = index_matrix(k, *r, *c, rng.below(5) as i64);
             let extents: Vec<usize> = if forms.len() == 1 { vec![r * c] } else { vec![*r, *c] };
             let sels: Vec<Sel> = forms.iter().zip(extents.iter()).map(|(f, e)| gen_sel(f, *e, &mut rng)).collect();
